@@ -139,11 +139,19 @@ claim("C01",
       "Lean theorems (Props/C01.lean, by induction on the recursion bound of the emitter): object_placed_once / archive_placed_once (an included "
       "plain entry contributes exactly one statement per section: its own path under the current base, that section, KEEP per its effective "
       "value), pad_only_in_its_section, group_is_concatenation (depth-first, list order, group dir appended), object_names_only_itself (whatever "
-      "section_order and sub-groups do, an entry only ever names its own path) — the general exactly-once statement with section_order and "
-      "sub-groups is not proved; it is the declarative specification C01.expected (every configured section of every included leaf, once, in the "
-      "group loc(c) = slot(dest c)), which is evaluated as a multiset equality on the implementation's ordinary, single-segment and partial "
-      "scripts on every case. Image theorem image_placed_inside_segment: everything the statements of an output section of a segment place lies inside that section's address range and in no other section, for every object table and link state." + IMG,
-      "Lean 4 proofs about the emitter (partial) + declarative placement specification evaluated on implementation scripts + real links", "DESIGN.md §8 C01")
+      "section_order and sub-groups do, an entry only ever names its own path); with section_order in segments without sub-groups "
+      "(Props/C01Order.lean): object_with_section_order (one statement per section whose destination is the group, in (position, name) order), "
+      "mem_sectionsToEmitHere and section_once_in_destination_group (with pairwise different keys every section is contributed exactly once to "
+      "the group of its destination and to no other group); the general case, section_order and nested sub-groups together "
+      "(Props/C01Sub.lean): emitEntry_eq_secsE (an object / archive entry writes exactly one statement per section of the walk secsE), "
+      "leaf_once_per_group and leaf_once_over_groups (no section of an entry is placed twice, in one group or in two groups that are nobody's "
+      "sub-group), leaf_placed_iff (placed in g iff a chain 'sent to / sub-group of' leads from g to the section), expected_is_placed and "
+      "placed_is_expected (what an entry contributes to a listed group is exactly what the evaluated specification C01.expected / locOf names), "
+      "mark_placed (pads and linker offsets: once, where their section is placed). Hypotheses: section_order keys pairwise different, no section "
+      "listed as a sub-group twice, (for placed_is_expected) no listed section is a sub-group. The lift from one entry to the whole segment "
+      "(entries with equal paths) is the declarative specification C01.expected, evaluated as a multiset equality on the implementation's "
+      "ordinary, single-segment and partial scripts on every case. Image theorem image_placed_inside_segment: everything the statements of an output section of a segment place lies inside that section's address range and in no other section, for every object table and link state." + IMG,
+      "Lean 4 proofs about the emitter (per entry complete; whole-segment lift evaluated) + declarative placement specification evaluated on implementation scripts + real links", "DESIGN.md §8 C01")
 claim("C02",
       "Lean theorems (Props/C02.lean): segments_in_document_order, groups_follow_the_list, entries_in_file_order, subgroups_follow_lead, "
       "moved_sections_sorted (with C15.sectionsToEmitHere_perm), plus C01.group_is_concatenation for depth-first order and "
@@ -196,6 +204,13 @@ claim("C11",
       "Lean theorems (Props/C11.lean): one_script_per_emitted_segment, same_statements (the emitter does not read the two flags that distinguish a "
       "partial sub-script writer, so the statements per section are identical), main_places_partial_object, main_same_rom, "
       "missing_folder_is_error. The Lean predicate C11.holds compares the implementation's ordinary and partial generations of every case "
-      "(statements per group, main-script skeleton, one partial object per group, symbol union). A quarter of the cases is linked both ways "
-      "with GNU ld (ld -r per partial script, then the main script) and segment membership / relative order of all markers are compared.",
+      "(statements per group, main-script skeleton, one partial object per group, symbol union). Two-step clause (Props/C11TwoStep.lean over "
+      "Slinkyv.Ld2): exec_takes (Ld.exec places exactly the list `takes` computes, for every script / object table / state), "
+      "two_step_segment_order and two_step_same_order (partial script with the groups as output sections + main script placing the partial "
+      "object once per group => the order of the one-step link of the same statements, when group names are pairwise different and no group's "
+      "pattern matches a later group's name), grab_breaks_order (the clause is false otherwise: known finding KF-C11-prefix-group, replayed "
+      "against slinky and GNU ld on every run). A quarter of the cases is linked both ways with GNU ld (ld -r per partial script, then the main "
+      "script): members per output section (from the symbol table) and relative order of all markers are compared, and the order is compared "
+      "with what Ld2.twoStep predicts (twostep_model_fidelity). ld -r facts Ld2 encodes (one section per output section, empty ones absent, "
+      "moved as a block) are validated, not proved.",
       "Lean 4 proofs relating the two writers + predicate on both generations + two-step real links", "DESIGN.md §8 C11")
